@@ -113,7 +113,8 @@ StartFields ==
   /\ IsBuild(tree, 1..N)
   /\ GeoOk(Ev.tree, tree)
   /\ LbClose(Ev.lb, IvQ(tree))
-TStart == Has("start") /\ pc = "start" /\ StartFields /\ Start /\ pc' = "loop" /\ StepInvB' /\ Adv
+\* (P = TRUE: TLC evaluates P as a value instead of splitting its disjunctions into branches of the action)
+TStart == Has("start") /\ pc = "start" /\ StartFields = TRUE /\ Start /\ pc' = "loop" /\ StepInvB' = TRUE /\ Adv
 
 \* no step events are expected for an empty index or k = 0: the model is done at once
 TStartEmpty ==
@@ -139,23 +140,23 @@ PopFields(en, leL, leR) ==
 PopOf(en) ==
   \E geRad \in GeRadSet(en.node), geWorst \in GeWorstSet(en.node) :
   \E leL \in KidSet(en, TRUE), leR \in KidSet(en, FALSE) :
-     GPopWith(en, geRad, geWorst, leL, leR) /\ PopFields(en, leL, leR)
+     GPopWith(en, geRad, geWorst, leL, leR) /\ PopFields(en, leL, leR) = TRUE
 TPop ==
   /\ Has("pop") /\ pc = "loop"
   /\ \E en \in queue : Sub(en.node) = SeqSet(Ev.node) /\ PopOf(en)
-  /\ StepInvB' /\ Adv
+  /\ StepInvB' = TRUE /\ Adv
 
 (* ---- leaf scan ---- *)
 TPoint ==
   /\ Has("point") /\ pc = "leaf" /\ cur # <<>>
   /\ GScan
   /\ LET p == Head(cur) IN
-       /\ Ev.idx = p - 1
-       /\ Is64(Ev.d, D(p))
-       /\ Ev.kept <=> (<<D(p), p>> \in out')
-       /\ Ev.outlen = Cardinality(out')
-       /\ WorstIs(Ev.worst, out')
-  /\ StepInvB' /\ Adv
+       (/\ Ev.idx = p - 1
+        /\ Is64(Ev.d, D(p))
+        /\ Ev.kept <=> (<<D(p), p>> \in out')
+        /\ Ev.outlen = Cardinality(out')
+        /\ WorstIs(Ev.worst, out')) = TRUE
+  /\ StepInvB' = TRUE /\ Adv
 TLeafEnd == pc = "leaf" /\ cur = <<>> /\ GScan /\ UNCHANGED <<c, e>>
 
 (* ---- end of the search ---- *)
@@ -164,7 +165,7 @@ TDone ==
   /\ \/ pc = "done" /\ queue # {} /\ UNCHANGED vars          \* after a stop (the popped entry stays on the model's queue)
      \/ Exhausted
   /\ Ev.n = Cardinality(out)
-  /\ StepInvB' /\ Adv
+  /\ StepInvB' = TRUE /\ Adv
 
 (* ---- what the API returned ---- *)
 PosOk(pos) == \A j \in 1..Len(pos) : pos[j] \in 0..(N - 1)
@@ -181,13 +182,13 @@ RelationOk(pos) ==
 Final == e = NEv /\ Ev.ev = "result"
 
 Accept ==
-  /\ Final /\ Hooked /\ pc = "done" /\ (NEv = 1 \/ Case.ev[NEv - 1].ev = "done")
-  /\ Ev.st = "ok" /\ ResultIs(Ev.pos) /\ RelationOk(Ev.pos)
+  /\ Final /\ Hooked /\ pc = "done" /\ (IF NEv = 1 THEN TRUE ELSE Case.ev[NEv - 1].ev = "done")
+  /\ Ev.st = "ok" /\ ResultIs(Ev.pos) = TRUE /\ RelationOk(Ev.pos) = TRUE     \* (= TRUE: evaluated as values, not split into branches)
   /\ Ok(Case.id)
   /\ e' = e + 1 /\ UNCHANGED <<c, vars>>
 AcceptNoHook ==
   /\ Final /\ ~Hooked /\ e = 1
-  /\ Ev.st = "ok" /\ RelationOk(Ev.pos)
+  /\ Ev.st = "ok" /\ RelationOk(Ev.pos) = TRUE
   /\ OkDev(Case.id, <<"nohook">>)
   /\ e' = e + 1 /\ UNCHANGED <<c, vars>>
 
